@@ -22,6 +22,7 @@ OP = rt.envstr("VF_OP", "add")
 TYPES = [EventType("VF_T%d" % i) for i in range(3)]
 META = EventType("VF_META", {"a": int, "b": str})
 META1 = EventType("VF_META1", {"a": int})
+META0 = EventType("VF_META0", {})          # declared, but empty: the payload must be the empty dict
 
 
 class Rec(EventListener):
@@ -199,8 +200,8 @@ def h_payload(mask: int, vcode: List[int], iv: int, sv: str, check: bool) -> boo
     pre: len(sv) <= 1
     post: _
     """
-    et = META1 if SINGLE else META
-    decl = {"a": int} if SINGLE else {"a": int, "b": str}
+    et = META0 if SINGLE == 2 else (META1 if SINGLE else META)
+    decl = {} if SINGLE == 2 else ({"a": int} if SINGLE else {"a": int, "b": str})
     content = {}
     for n in range(3):
         if (mask >> n) & 1:
@@ -223,13 +224,14 @@ def h_payload(mask: int, vcode: List[int], iv: int, sv: str, check: bool) -> boo
     return True
 
 
-def h_nondict(shape: int, iv: int, sv: str, check: bool, timed: bool, single: bool) -> bool:
+def h_nondict(shape: int, iv: int, sv: str, check: bool, timed: bool, single: int) -> bool:
     """
     pre: 1 <= shape <= 4
     pre: len(sv) <= 1
+    pre: 0 <= single <= 2
     post: _
     """
-    et = META1 if single else META
+    et = [META, META1, META0][single]
     content = [None, None, [("a", iv)], sv, iv][shape]
     try:
         _make(timed, iv, et, content, check)
